@@ -11,6 +11,9 @@
 #include "oracle/exact_lp.hh"
 #include <sstream>
 #include <memory>
+#include <sys/wait.h>
+#include <unistd.h>
+#include <signal.h>
 
 namespace PPL = Parma_Polyhedra_Library;
 using PPL::MIP_Problem; using PPL::Constraint; using PPL::Constraint_System; using PPL::Linear_Expression;
@@ -88,8 +91,9 @@ struct MipHarness : Harness {
   int child_seconds() const override { return 40; }
   void warmup() override { fault_install_hooks(); }
 
-  Plan generate(Rng& r, const std::string&, bool thorough) override {
+  Plan generate(Rng& r, const std::string& prop, bool thorough) override {
     Plan p; p.domain = "MIP_Problem";
+    bool c14 = prop == "C14";
     int dim = (int) r.range(1, 4), pool = (int) r.range(1, 2);
     p.knobs["dim"] = dim; p.knobs["pool"] = pool;
     bool ints = r.chance(40);
@@ -100,11 +104,147 @@ struct MipHarness : Harness {
       Op op; op.kind = kinds[r.below(sizeof kinds / sizeof *kinds)];
       if (op.kind == "make_integer" && !ints) op.kind = "solve";
       if (op.kind == "clear" && r.chance(70)) op.kind = "add_constraint";
+      if (c14 && r.chance(8)) op.kind = "illformed";
       op.a = { r.range(0, pool - 1), r.range(0, pool - 1), r.range(0, 2) };
       for (int k = 0; k < 2; ++k) { for (dimension_type j = 0; j < MAXD; ++j) op.a.push_back(r.chance(40) ? 0 : r.range(-4, 4)); op.a.push_back(r.range(-6, 6)); op.a.push_back(r.range(0, 2)); }
+      if (c14 && i >= 3 && r.chance(35)) {
+        static const char* fk[] = { "alloc", "alloc", "allocs", "abandon", "abandon", "flag", "weight" };
+        op.fault = fk[r.below(sizeof fk / sizeof *fk)]; op.fk = (long) r.below(100000);
+      }
       p.ops.push_back(op);
     }
     return p;
+  }
+
+  // ---------------------------------------------------------------- C14: fault branches (same scheme as obj_core.hh)
+  static std::string fkl(const Op& op, const std::string& extra) { return "MIP_Problem|" + op.kind + "|" + op.fault + (extra.empty() ? "" : "|" + extra); }
+
+  template <class F> bool in_grandchild(Ctx& ctx, const Op& op, const char* what, F body) {
+    fflush(stdout); fflush(stderr);
+    pid_t g = fork();
+    if (g < 0) return false;
+    if (g == 0) { signal(SIGALRM, SIG_DFL); alarm(30); ctx.reset_for_branch(); body(); ctx.flush(false); _exit(0); }
+    int st = 0;
+    while (waitpid(g, &st, 0) < 0 && errno == EINTR) {}
+    if (ctx.sh) ctx.sh->in_branch = 0;
+    if (WIFEXITED(st) && WEXITSTATUS(st) == 0) return true;
+    std::string how = WIFSIGNALED(st) ? "sig" + std::to_string(WTERMSIG(st)) : "exit" + std::to_string(WEXITSTATUS(st));
+    std::string mon = (WIFEXITED(st) && WEXITSTATUS(st) == 77) ? "sanitizer" : (WIFEXITED(st) && WEXITSTATUS(st) == 78) ? "terminate" : "crash";
+    ctx.violation("C14", mon + "-in-fault-branch", fkl(op, std::string(what) + "|" + how + "|" + (ctx.sh ? std::string(ctx.sh->note) : "")), "fault branch died (" + how + ") during: " + (ctx.sh ? std::string(ctx.sh->note) : ""));
+    return false;
+  }
+
+  // the library call of an operation, nothing else (no model, no judgement): what a fault branch executes
+  static Constraint con_of(dimension_type dim, const Op& op, size_t base) {
+    Linear_Expression e; for (dimension_type j = 0; j < dim; ++j) e += (op.arg(base + j) % 6) * Variable(j);
+    long b = op.arg(base + MAXD) % 8; int rel = (int) op.mod(base + MAXD + 1, 3) - 1;
+    return rel < 0 ? (e <= b) : rel > 0 ? (e >= b) : (e == b);
+  }
+  static bool faultable(const std::string& k) {
+    return k == "add_constraint" || k == "add_constraints" || k == "set_objective" || k == "solve" || k == "is_satisfiable" || k == "feasible_point"
+        || k == "optimizing_point" || k == "optimal_value" || k == "add_dims" || k == "make_integer" || k == "copy" || k == "assign" || k == "dump_load";
+  }
+  static bool logically_const(const std::string& k) { return k == "solve" || k == "is_satisfiable" || k == "feasible_point" || k == "optimizing_point" || k == "optimal_value" || k == "copy" || k == "dump_load"; }
+  static void lib_call(MIP_Problem& p, MIP_Problem& q, const Op& op) {
+    const std::string& k = op.kind; dimension_type dim = p.space_dimension();
+    if (k == "add_constraint") p.add_constraint(con_of(dim, op, 3));
+    else if (k == "add_constraints") { Constraint_System cs; cs.insert(con_of(dim, op, 3)); cs.insert(con_of(dim, op, 3 + MAXD + 2)); if (cs.space_dimension() < dim) cs.set_space_dimension(dim); p.add_constraints(cs); }
+    else if (k == "set_objective") { Linear_Expression e; for (dimension_type j = 0; j < dim; ++j) e += (op.arg(3 + j) % 6) * Variable(j); e += op.arg(3 + MAXD) % 8; p.set_objective_function(e); }
+    else if (k == "solve") (void) p.solve();
+    else if (k == "is_satisfiable") (void) p.is_satisfiable();
+    else if (k == "feasible_point") { try { (void) p.feasible_point(); } catch (const std::domain_error&) {} }
+    else if (k == "optimizing_point") { try { (void) p.optimizing_point(); } catch (const std::domain_error&) {} }
+    else if (k == "optimal_value") { try { Coefficient n, d; p.optimal_value(n, d); } catch (const std::domain_error&) {} }
+    else if (k == "add_dims") p.add_space_dimensions_and_embed((dimension_type) op.mod(2, 3));
+    else if (k == "make_integer") { if (dim == 0) return; Variables_Set vs; vs.insert(Variable((dimension_type) op.mod(3, (long) dim))); p.add_to_integer_space_dimensions(vs); }
+    else if (k == "copy") { MIP_Problem c(p); (void) c.is_satisfiable(); }
+    else if (k == "assign") q = p;
+    else if (k == "dump_load") { std::ostringstream o; p.ascii_dump(o); std::istringstream in(o.str()); MIP_Problem z(0); (void) z.ascii_load(in); }
+  }
+  // observable behaviour of a problem (solved on a private copy): status, optimum
+  static std::string behaviour(const MIP_Problem& p) {
+    MIP_Problem c(p); int st = st_code(c.solve()); std::string r = st_name(st);
+    if (st == 2) { Coefficient n, d; c.optimal_value(n, d); mpq_class v(n, d); v.canonicalize(); r += " " + v.get_str(); }
+    return r;
+  }
+
+  void fault_branches(Ctx& ctx, const Op& op, Slot& x, Slot& y) {
+    Shared* sh = ctx.sh;
+    if (!sh || !faultable(op.kind)) return;
+    const std::string fk = op.fault;
+    bool okc = in_grandchild(ctx, op, "count", [&]() {
+      unsigned long long w0 = PPL::Weightwatch_Traits::weight;
+      fault_arm_count(); bool threw = false;
+      ctx.note("count: call");
+      try { lib_call(*x.p, *y.p, op); } catch (...) { threw = true; }
+      long a = g_fault.count, b = g_fault.ab_count; fault_disarm();
+      sh->scratch[0] = a; sh->scratch[1] = b; sh->scratch[2] = (long) (PPL::Weightwatch_Traits::weight - w0); sh->scratch[3] = threw ? 1 : 0;
+    });
+    if (!okc || sh->scratch[3]) { ctx.stat("c14.skipped_op_throws_unfaulted"); return; }
+    long space = fk == "abandon" ? sh->scratch[1] : fk == "weight" ? sh->scratch[2] : sh->scratch[0];
+    if (space <= 0) { ctx.stat("c14.fault_has_no_position." + fk); return; }
+    long k = op.fk % space;
+    in_grandchild(ctx, op, fk.c_str(), [&]() {
+      ctx.note("branch: copies");
+      MIP_Problem good_x(*x.p), good_y(*y.p);
+      std::string beh_x = behaviour(good_x), beh_y = behaviour(good_y);
+      long live0 = g_fault.live; (void) live0;
+      std::string outcome = "completed";
+      ctx.note(("branch: faulted call " + fk + "@" + std::to_string(k)).c_str());
+      {
+        typedef PPL::Threshold_Watcher<PPL::Weightwatch_Traits> WW;
+        std::unique_ptr<WW> ww;
+        if (fk == "weight") { ww.reset(new WW((PPL::Weightwatch_Traits::Delta) (k + 1), PPL::abandon_expensive_computations, g_sim_throwable)); fault_arm_count(); }
+        else if (fk == "alloc") fault_arm_alloc(k, false);
+        else if (fk == "allocs") fault_arm_alloc(k, true);
+        else if (fk == "abandon") fault_arm_abandon(k);
+        else fault_arm_flag(k);
+        try { lib_call(*x.p, *y.p, op); }
+        catch (const std::bad_alloc&) { outcome = "bad_alloc"; }
+        catch (const Sim_Abandon&) { outcome = "abandoned"; }
+        catch (const std::exception& e) { outcome = std::string("other:") + e.what(); }
+        catch (...) { outcome = "other:unknown"; }
+        bool fired = g_fault.failed > 0 || g_fault.ab_fired || g_fault.flag_raised || (fk == "weight" && PPL::abandon_expensive_computations != nullptr);
+        fault_disarm(); fault_lower_flag();
+        if (fired) ++ctx.faults_fired;
+        ctx.stat("c14.fault." + fk + "." + (fired ? "fired" : "not_fired"));
+        ctx.stat("c14.outcome." + fk + "." + (outcome.compare(0, 6, "other:") == 0 ? "other" : outcome));
+        ctx.note("branch: watcher teardown");
+      }
+      bool expect_alloc = fk == "alloc" || fk == "allocs";
+      if (outcome.compare(0, 6, "other:") == 0) ctx.violation("C14", "wrong-exception", fkl(op, outcome.substr(0, 60)), "injected " + fk + " surfaced as " + outcome);
+      else if (outcome == "bad_alloc" && !expect_alloc) ctx.violation("C14", "wrong-exception", fkl(op, "bad_alloc"), "bad_alloc without an injected allocation failure");
+      else if (outcome == "abandoned" && expect_alloc) ctx.violation("C14", "wrong-exception", fkl(op, "abandoned"), "abandonment without an injected abandonment");
+      if (PPL::Weightwatch_Traits::check_function != nullptr) ctx.violation("C14", "global-state", fkl(op, "check_function"), "Weightwatch check_function left installed");
+      if (outcome == "completed" || !ctx.viols.empty()) return;
+      // direct use: the problems that were hit are valid objects; a logically const operation leaves the problem itself unchanged
+      ctx.note("branch: direct use of the objects that were hit");
+      std::vector<std::pair<MIP_Problem*, const std::string*> > hit = { { x.p.get(), &beh_x } };
+      if (op.kind == "assign" && &x != &y) hit.push_back({ y.p.get(), nullptr });
+      for (auto& h : hit) {
+        bool ok = false; try { ok = h.first->OK(); } catch (const std::exception&) {}
+        ctx.stat("c14.direct_use_checks");
+        if (!ok) { ctx.violation("C14", "damaged-not-ok", fkl(op, outcome), "OK() is false for a MIP_Problem involved in a call cut short by " + outcome + " (before any recovery)"); return; }
+        if (h.second && logically_const(op.kind)) {
+          std::string b; try { b = behaviour(*h.first); } catch (const std::exception& e) { b = std::string("throws ") + e.what(); }
+          if (b != *h.second) { ctx.violation("C14", "const-op-changed-problem", fkl(op, outcome), "after a logically const call cut short by " + outcome + " the problem solves to [" + b + "], a copy taken before to [" + *h.second + "]"); return; }
+        }
+      }
+      // recovery by assignment / swap / re-creation, then the same behaviour as the value assigned
+      ctx.note("branch: recovery");
+      long mode = (op.fk + k) % 3;
+      if (mode == 0) { x.p.reset(); x.p.reset(new MIP_Problem(good_x)); } else if (mode == 1) *x.p = good_x; else { MIP_Problem t(good_x); using std::swap; swap(*x.p, t); }
+      if (!x.p->OK()) ctx.violation("C14", "recovered-not-ok", fkl(op, mode == 1 ? "assign" : mode == 2 ? "swap" : "recreate"), "MIP_Problem recovered after " + outcome + " fails OK()");
+      else { std::string b = behaviour(*x.p); if (b != beh_x) ctx.violation("C14", "recovered-differs", fkl(op, ""), "recovered problem solves to [" + b + "], the value assigned to it to [" + beh_x + "]"); }
+      if (!ctx.viols.empty()) return;
+      // leaks: destroy everything, then ask LSan
+      ctx.note("branch: teardown");
+      x.p.reset(); if (&x != &y) y.p.reset();
+      { MIP_Problem e1(0); using std::swap; swap(good_x, e1); MIP_Problem e2(0); swap(good_y, e2); }
+      ctx.stat("c14.leak_checks");
+      std::string site;
+      if (lsan_leaks_site(site)) ctx.violation("C14", "leak", fkl(op, "site=" + site), "memory allocated during a call cut short by " + outcome + " is unreachable after every problem was destroyed (first non-allocator frame: " + site + ")");
+    });
   }
 
   static std::string kl(const Op& op, const std::string& extra) { return "MIP_Problem|" + op.kind + "|-|" + extra; }
@@ -179,6 +319,8 @@ struct MipHarness : Harness {
       ctx.log(k);
       { std::ostringstream o; x.p->ascii_dump(o); std::string d = o.str(); size_t p1 = d.find("status"); size_t p2 = d.find("initialized");
         ctx.state(k + "|" + (p1 == std::string::npos ? "" : d.substr(p1, std::min<size_t>(24, d.find('\n', p1) - p1))) + "|" + (p2 == std::string::npos ? "" : d.substr(p2, std::min<size_t>(16, d.find('\n', p2) - p2)))); }
+      if (!op.fault.empty() && plan.prop == "C14") fault_branches(ctx, op, x, y);
+      if (!ctx.viols.empty()) break;
       try {
         if (k == "add_constraint") add_row(x, op, 3);
         else if (k == "add_constraints") { add_row(x, op, 3); add_row(x, op, 3 + MAXD + 2); }
@@ -188,11 +330,15 @@ struct MipHarness : Harness {
         else if (k == "set_pricing") { static const MIP_Problem::Control_Parameter_Value pr[3] = { MIP_Problem::PRICING_STEEPEST_EDGE_FLOAT, MIP_Problem::PRICING_STEEPEST_EDGE_EXACT, MIP_Problem::PRICING_TEXTBOOK };
           x.p->set_control_parameter(pr[op.mod(2, 3)]); }
         else if (k == "add_dims") { dimension_type m = (dimension_type) op.mod(2, 3); if (x.m.dim + m > MAXD) continue; x.p->add_space_dimensions_and_embed(m); x.m.dim += m; x.m.obj.resize(x.m.dim, 0); for (auto& r : x.m.rows) r.a.resize(x.m.dim, 0); }
-        else if (k == "make_integer") { if (x.m.dim == 0) continue; dimension_type v = (dimension_type) op.mod(3, (long) x.m.dim); Variables_Set vs; vs.insert(Variable(v)); x.p->add_to_integer_space_dimensions(vs); x.m.ints.insert(v);
-          // box it, so that enumeration is complete and branch-and-bound terminates
+        else if (k == "make_integer") { if (x.m.dim == 0) continue; dimension_type v = (dimension_type) op.mod(3, (long) x.m.dim); Variables_Set vs; vs.insert(Variable(v));
+          // box it, so that enumeration is complete and branch-and-bound terminates.  The box comes FIRST and, half of the
+          // time, the problem is solved in between: the declaration itself must then invalidate the cached answer
+          // (adding a constraint afterwards would do it on its behalf)
           long lo = op.arg(4) % 4, hi = lo + 1 + op.mod(5, 5);
           oracle::LPRow a; a.a.assign(x.m.dim, 0); a.a[v] = 1; a.rel = 1; a.b = lo; x.m.rows.push_back(a); x.p->add_constraint(Variable(v) >= lo);
-          oracle::LPRow b; b.a.assign(x.m.dim, 0); b.a[v] = 1; b.rel = -1; b.b = hi; x.m.rows.push_back(b); x.p->add_constraint(Variable(v) <= hi); }
+          oracle::LPRow b; b.a.assign(x.m.dim, 0); b.a[v] = 1; b.rel = -1; b.b = hi; x.m.rows.push_back(b); x.p->add_constraint(Variable(v) <= hi);
+          if (op.mod(6, 2)) { (void) x.p->solve(); ctx.stat("mip.solved_before_integer_declaration"); }
+          x.p->add_to_integer_space_dimensions(vs); x.m.ints.insert(v); }
         else if (k == "solve") { int st = st_code(x.p->solve()); ctx.log((u64) st); ctx.stat(std::string("mip.solve.") + st_name(st)); judge_solve(ctx, op, x, st, false); }
         else if (k == "is_satisfiable") { bool b = x.p->is_satisfiable(); ctx.log((u64) b); judge_solve(ctx, op, x, b ? 2 : 0, true); }
         else if (k == "feasible_point" || k == "optimizing_point" || k == "optimal_value") {
@@ -209,6 +355,25 @@ struct MipHarness : Harness {
           Generator g = Generator::point(e, den); Coefficient n, d; x.p->evaluate_objective_function(g, n, d); mpq_class got(n, d); got.canonicalize();
           mpq_class want = x.m.obj_inh; for (dimension_type j = 0; j < x.m.dim; ++j) want += x.m.obj[j] * mpq_class(op.arg(3 + j) % 5, den);
           want.canonicalize(); if (got != want) ctx.violation("C06", "evaluate", kl(op, ""), "evaluate_objective_function gives " + got.get_str() + " expected " + want.get_str()); }
+        else if (k == "illformed") {
+          // documented precondition violations: std::invalid_argument and the problem unchanged (text of its dump)
+          std::ostringstream o0; x.p->ascii_dump(o0);
+          long which = op.mod(2, 4); bool threw = false; std::string what;
+          dimension_type dim = x.p->space_dimension();
+          try {
+            if (which == 0) { Constraint_System cs; cs.insert(con_of(dim, op, 3)); cs.insert(con_of(dim, op, 3 + MAXD + 2)); Linear_Expression e; if (dim) e += Variable(0); cs.insert(e > 1); cs.set_space_dimension(dim); x.p->add_constraints(cs); what = "add_constraints(cs) with a strict inequality after valid constraints"; }
+            else if (which == 1) { Linear_Expression e; if (dim) e += Variable(dim - 1); x.p->add_constraint(e < 3); what = "add_constraint(strict)"; }
+            else if (which == 2) { x.p->add_constraint(Linear_Expression(Variable(dim)) >= 0); what = "add_constraint of a higher space dimension"; }
+            else { Variables_Set vs; vs.insert(Variable(dim)); x.p->add_to_integer_space_dimensions(vs); what = "add_to_integer_space_dimensions beyond the space dimension"; }
+          }
+          catch (const std::invalid_argument&) { threw = true; }
+          ctx.stat("c14.illformed.mip"); ++ctx.faults_fired;
+          if (!threw) { ctx.violation("C14", "illformed-accepted", "MIP_Problem|illformed|-|" + std::to_string(which), "accepted: " + what); break; }
+          std::ostringstream o1; x.p->ascii_dump(o1);
+          if (!x.p->OK()) { ctx.violation("C14", "rejected-not-ok", "MIP_Problem|illformed|-|" + std::to_string(which), "OK() false after a rejected call"); break; }
+          if (o0.str() != o1.str()) { ctx.violation("C14", "rejected-changed", "MIP_Problem|illformed|-|" + std::to_string(which), "the problem changed although the call was rejected"); break; }
+          continue;
+        }
         else if (k == "copy") { if (&x == &y) continue; y.p.reset(new MIP_Problem(*x.p)); y.m = x.m; }
         else if (k == "assign") { *y.p = *x.p; y.m = x.m; }
         else if (k == "swap") { using std::swap; swap(*x.p, *y.p); std::swap(x.m, y.m); }
